@@ -97,7 +97,11 @@ C01_OthersKeep == Step /\ (~Ok \/ E.act \notin (MoveActs \cup {"mint", "burn", "
   supply' = supply /\ bal' = bal
 
 \* an accepted instantiate: balances as requested, supply their sum
-C01_Init == E.act = "reset" /\ Ok =>
+\* (a fixture run starts from storage recorded from the released code: see FixtureFaithful)
+FromFixture == "fixture" \in DOMAIN E.cfg
+\* upgrade of a deployed token: what the code reads from storage written by the release is what the release reported
+UpgradeKeepsState == E.act = "reset" /\ Ok /\ FromFixture => E.obs = E.cfg.expect
+C01_Init == E.act = "reset" /\ Ok /\ ~FromFixture =>
   /\ \A a \in Addr : bal'[a] = SumOver({i \in 1..Len(E.cfg.init) : E.cfg.init[i].a = a}, [i \in 1..Len(E.cfg.init) |-> E.cfg.init[i].amt])
   /\ supply' = SumOver(1..Len(E.cfg.init), [i \in 1..Len(E.cfg.init) |-> E.cfg.init[i].amt])
 
@@ -155,7 +159,8 @@ C02_ReceiveNotified == Step =>
 C02_FailRollsBack == Step /\ ~Ok => bal' = bal /\ allow' = allow
 
 \* ------------------------------------------------------------------ C13
-C13_Cap == (mint.addr # "none" /\ mint.cap # -1) => supply <= mint.cap
+\* the cap bounds the tokens in existence: the reported supply and what the accounts really hold
+C13_Cap == (mint.addr # "none" /\ mint.cap # -1) => supply <= mint.cap /\ SumOver(Addr, bal) <= mint.cap
 
 C13_MintByMinter == Step /\ supply' > supply => IsOk("mint") /\ mint.addr = E.by /\ mint.addr # "none"
 
@@ -169,7 +174,7 @@ C13_HandOverExact == Step /\ IsOk("update_minter") =>
 C13_RenounceForever == Step /\ mint.addr = "none" => mint'.addr = "none"
 
 \* an accepted instantiate honours the requested minter and cap
-C13_Init == E.act = "reset" /\ Ok =>
+C13_Init == E.act = "reset" /\ Ok /\ ~FromFixture =>
   mint' = IF E.cfg.minter = "none" THEN NoMint ELSE [addr |-> E.cfg.minter, cap |-> E.cfg.cap]
 
 \* ------------------------------------------------------------------ C19
@@ -201,7 +206,7 @@ X20_UploadLogoExact == Step /\ IsOk("upload_logo") =>
   /\ E.by = mk.marketing /\ mk.marketing # "none" /\ E.args.kind \in GoodLogos
   /\ mk' = [mk EXCEPT !.logo = LogoOf(E.args.kind), !.mime = MimeOf(E.args.kind)]
 X20_TokenUntouched == Step /\ E.act \in MkActs => bal' = bal /\ supply' = supply /\ allow' = allow /\ mint' = mint /\ ov' = ov /\ sv' = sv
-X20_Init == E.act = "reset" /\ Ok =>
+X20_Init == E.act = "reset" /\ Ok /\ ~FromFixture =>
   mk' = IF E.cfg.mkt.on
         THEN [project |-> "proj0", description |-> "none", marketing |-> E.cfg.mkt.addr,
               logo |-> IF E.cfg.mkt.logo = "none" THEN "none" ELSE LogoOf(E.cfg.mkt.logo),
